@@ -82,6 +82,18 @@ impl GenCfg
     }
 }
 
+thread_local!
+{
+    /* which rarely-taken dimensions the cases generated on this thread used (drained into the
+       statistics at the end of each run; never read by the generator itself) */
+    static CASE_DIMENSIONS : std::cell::RefCell<Vec<&'static str>> = std::cell::RefCell::new(vec![]);
+}
+
+pub fn take_case_dimensions() -> Vec<&'static str>
+{
+    CASE_DIMENSIONS.with(|d| std::mem::take(&mut *d.borrow_mut()))
+}
+
 pub struct Gen
 {
     pub rng : Rng,
@@ -904,6 +916,27 @@ impl Gen
     }
 
     pub fn case(&mut self) -> Case
+    {
+        let c = self.case_inner();
+        let mut dims : Vec<&'static str> = vec![];
+        if self.crowd { dims.push("crowd-of-40-to-220-rules"); }
+        if self.crowd && self.leaves.len() > 128 { dims.push("more-than-128-leaves"); }
+        if self.long_names { dims.push("long-names"); }
+        if self.odd_names { dims.push("non-ascii-names"); }
+        if self.big_files { dims.push("files-of-255-to-100000-bytes"); }
+        if self.mib_files { dims.push("files-around-1-MiB"); }
+        if self.dir_leaves.len() > 0 { dims.push("directory-source"); }
+        if c.files.iter().any(|(p, _)| p.starts_with("../") || p.starts_with('/')) { dims.push("leaf-outside-workspace"); }
+        if c.marker("ruler").is_some() { dims.push("ruler-directory-elsewhere"); }
+        if c.marker("rules").is_some() { dims.push("rules-files-renamed"); }
+        if c.marker("clock").is_some() { dims.push("other-time-origin"); }
+        if c.ops.len() > 2000 { dims.push("soak-beyond-1000-states"); } else if c.ops.len() > 40 { dims.push("soak-or-long-history"); }
+        if c.rules.iter().any(|r| r.targets.len() >= 20) { dims.push("rule-with-20-to-70-targets"); }
+        CASE_DIMENSIONS.with(|d| d.borrow_mut().extend(dims));
+        c
+    }
+
+    fn case_inner(&mut self) -> Case
     {
         if self.cfg.soak
         {
